@@ -370,6 +370,7 @@ def c_recv(ex, fr, st, ch, ins):
     q = c['chans'][ch.data]
     if q['q']:
         v = q['q'].pop(0)
+        c['iter'] = c.get('iter', 0) + 1
         return (v, True) if ins.get('commaok') else v
     if q['closed']:
         return (0, False) if ins.get('commaok') else 0
@@ -382,8 +383,25 @@ def c_close(ex, fr, st, ch, ins):
     return None
 
 
+def _share_track(ex, st, p, pos):
+    """plain (non-atomic, unlocked) stores made by goroutines to memory that existed before they were started: two
+    different loop iterations (jobs) storing to the same cell would be a data race between workers"""
+    c = _conc(ex)
+    if not c.get('in_goroutine') or c['lockdepth'] > 0:
+        return
+    if not isinstance(p, Ptr) or not isinstance(p.obj, str):
+        return
+    if ex.alloc_epoch.get(p.obj, 0) >= c.get('go_epoch', 1 << 60):
+        return
+    key = (p.obj,) + tuple(e if isinstance(e, int) else ('sym', id(e)) for e in p.path)
+    c.setdefault('shared_writes', {}).setdefault(key, set()).add((c.get('goroutine_no', 0), c.get('iter', 0)))
+    c.setdefault('shared_pos', {})[key] = pos
+
+
 def c_go(ex, fr, st, ins):
     c = _conc(ex)
+    c.setdefault('go_epoch', ex.nobj + 1)
+    ex.share_track = _share_track
     args = [ex.val(fr, a) for a in ins['args']]
     f = ex.val(fr, ins['fn'])
     c['pending'].append((f, args))
@@ -415,6 +433,8 @@ def c_wg_wait(ex, fr, st, args, ins):
     # run the parked goroutines one after another
     pending, c['pending'] = c['pending'], []
     for f, a in pending:
+        c['in_goroutine'] = True
+        c['goroutine_no'] = c.get('goroutine_no', 0) + 1
         try:
             ex.call_value(fr, st, f, a, ins)
             c['finished'] += 1
@@ -422,6 +442,12 @@ def c_wg_wait(ex, fr, st, args, ins):
             c['parked'] += 1
             st.heap = e.st.heap
             st.pc = e.st.pc
+        finally:
+            c['in_goroutine'] = False
+    for key, who in c.get('shared_writes', {}).items():
+        if len(who) > 1:
+            ex.oblige('race', st, True, 'two worker iterations store to the same shared memory cell without atomic operation or lock (data race between workers): %s' % (key[0],), c.get('shared_pos', {}).get(key, ''))
+    c['shared_writes'] = {}
     cnt = st.heap.get(k, 0)
     nz = int_cmp('!=', cnt, 0, 64, True)
     if nz is not False:
@@ -446,7 +472,12 @@ def c_atomic_add32(ex, fr, st, args, ins):
     p, d = args
     old = ex.load(st, p, 'int32')
     new = int_binop('+', old, d, 32, True)
-    ex.store(st, p, new)
+    c = _conc(ex)
+    c['lockdepth'] += 1        # an atomic read-modify-write is not a plain store
+    try:
+        ex.store(st, p, new)
+    finally:
+        c['lockdepth'] -= 1
     return new
 
 
